@@ -89,7 +89,7 @@ func (o *c06Op) pad() []byte {
 	return nil
 }
 
-func c06StreamOK(id uint32) bool    { return id != 0 && id < 1<<31 }
+func c06StreamOK(id uint32) bool     { return id != 0 && id < 1<<31 }
 func c06StreamOrZero(id uint32) bool { return id < 1<<31 }
 
 // c06Want is what the documentation of the Write methods and RFC 9113 say the
